@@ -24,6 +24,23 @@ def legal_history(r, maxentries=9, extract_fail=0.2):
     return toks
 
 
+def extract_history(r, maxentries=9):
+    """legal history that mostly extracts (what fills the reader's directory stack and deferred list)"""
+    toks = []
+    for _ in range(r.randrange(1, maxentries + 1)):
+        toks.append("n")
+        k = r.random()
+        if k < 0.65:
+            toks.append("x1")
+        elif k < 0.75:
+            toks.append("x0")
+        elif k < 0.85:
+            toks.append("c")
+        elif k < 0.92:
+            toks.append("r%d" % r.choice([0, 7, 1000]))
+    return toks
+
+
 def small_archives(limit=60000, max_member=100000):
     """corpus archives that are small on disk AND whose members decode to at most `max_member` bytes"""
     from vlib import core
@@ -121,6 +138,87 @@ def mac_many(r):
         out += E.encode(f) + data
     return out
 
+
+
+def _member(r, path, name, method=b"-lh0-", data=b"", perms=None, level=None, os_type=0x55, time=1_000_000_000, length=None, crc=None,
+            with_path_ext=True):
+    """one member with a (directory path, file name) pair; level 0 carries perms in the Unix area"""
+    level = r.choice([0, 1, 2]) if level is None else level
+    f = E.Fields(level=level, method=method, clen=len(data), length=len(data) if length is None else length,
+                 crc=E.crc16(data) if crc is None else crc, os_type=os_type, time=time)
+    if level == 0:
+        f.name = path + name
+        f.time = E.dos_time(2001, 6, 15, 12, 0, 0)
+        if perms is not None:
+            f.area = bytes([0x55, 0]) + (time & 0xffffffff).to_bytes(4, "little") + (perms & 0xffff).to_bytes(2, "little") + bytes(4)
+    else:
+        if level == 1:
+            f.time = E.dos_time(2001, 6, 15, 12, 0, 0)
+        if name:
+            f.exts.append((E.EXT_FILENAME, name))
+        if path and with_path_ext:
+            f.exts.append((E.EXT_PATH, path.replace(b"/", b"\xff")))
+        if perms is not None:
+            f.exts.append((E.EXT_PERM, (perms & 0xffff).to_bytes(2, "little")))
+        f.common_crc = level == 2 and r.random() < 0.5
+    return E.encode(f) + data
+
+
+def dirkind_archive(r):
+    """-lhd- entries in every combination the header parser distinguishes: permission type none / directory / SYMLINK / file,
+    name with and without the 'name|target' separator, with and without a directory part, empty names; each followed by ordinary
+    members with a path (what the reader's directory stack is compared against)"""
+    out = b""
+    for i in range(r.choice([1, 2, 3])):
+        perms = r.choice([None, 0o40755, 0o120777, 0o120777, 0o100644, 0o120000])
+        path = r.choice([b"", b"", b"d%d/" % i, b"d/e/"])
+        name = r.choice([b"lnk", b"lnk|tgt", b"lnk|../x", b"lnk|/abs", b"|", b"|t", b"n|", b"", b"a|b|c"])
+        lvl = r.choice([0, 1, 2])
+        if lvl == 0 and not (path + name):
+            name = b"x"
+        out += _member(r, path, name, method=b"-lhd-", perms=perms, level=lvl)
+        for _ in range(r.choice([0, 1, 2])):
+            data = S.rand_bytes(r, r.choice([0, 5, 40]))
+            out += _member(r, r.choice([b"", path, b"z/", b"d%d/sub/" % i]), b"f%d" % r.randrange(9), data=data,
+                           perms=r.choice([None, 0o100644]))
+    return out + (b"\0" if r.random() < 0.5 else b"")
+
+
+# methods the archive signature scan accepts (-lh?-, -pm?- except -pms-) but for which the library has no decoder
+ODD_METHODS = [b"-lh2-", b"-lh3-", b"-lh8-", b"-pm3-", b"-lh9-", b"-lha-", b"-pmz-"]
+
+
+def odd_method_archive(r):
+    """good members around one member the library cannot decode: a genuine but unsupported method (-lh2-, -lh3-, ...), or a MacLHA
+    member (OS type 'm', length >= 128) whose data stops inside its first 128 decoded bytes"""
+    good1 = _member(r, b"", b"first.txt", data=S.rand_bytes(r, r.choice([0, 10, 300])), level=r.choice([0, 1, 2]))
+    good2 = _member(r, b"", b"last.txt", data=S.rand_bytes(r, r.choice([1, 50])), level=r.choice([0, 1, 2]))
+    k = r.random()
+    data = S.rand_bytes(r, r.choice([1, 20, 200]))
+    if k < 0.6:
+        bad = _member(r, b"", b"odd.bin", method=r.choice(ODD_METHODS), data=data, length=r.choice([len(data), 1000]), level=r.choice([0, 1, 2]))
+    else:
+        short = S.rand_bytes(r, r.choice([0, 1, 60, 127]))
+        bad = _member(r, b"", b"mac.bin", method=b"-lh0-", data=short, length=r.choice([128, 200, 5000]), crc=r.randrange(65536),
+                      level=r.choice([1, 2]), os_type=0x6d)
+    parts = r.choice([[good1, bad, good2], [bad, good2], [good1, bad], [bad]])
+    return b"".join(parts) + b"\0"
+
+
+def prefix_dirs_archive(r):
+    """sibling directories whose names are proper prefixes of one another (a/ ab/ a.bak/ lib/ lib/sub/ lib2/), directory-first"""
+    base = r.choice([b"a", b"lib", b"dir"])
+    sibs = [base, base + r.choice([b"b", b"2", b".bak", b"_"]), base + base]
+    r.shuffle(sibs)
+    out = b""
+    lvl = r.choice([0, 1, 2])
+    for d in sibs[:r.choice([2, 3])]:
+        out += _member(r, d + b"/", b"", method=b"-lhd-", perms=r.choice([0o40755, 0o40700, None]), level=2 if lvl == 0 else lvl)
+        if r.random() < 0.4:
+            out += _member(r, d + b"/sub/", b"", method=b"-lhd-", perms=0o40755, level=2 if lvl == 0 else lvl)
+        for j in range(r.choice([0, 1, 2])):
+            out += _member(r, d + b"/", b"f%d" % j, data=S.rand_bytes(r, r.choice([0, 8])), perms=0o100644, level=lvl)
+    return out + b"\0"
 
 def decode_history(r, n=3):
     """history that decodes every member (read / check / extract)"""
